@@ -555,6 +555,24 @@ func runBufBody(mode, tier string, shard, shards int, rep *SeqReport, lastOp, cu
 			rep.sample("limit: LS2049; fill to 2049-r bytes; W(probe) for r in 0..12 and probe around r-2; W0; R; R; W(probe); drain")
 		}
 	}
+	// the ring grows beyond the 4 MiB default cap under a larger size limit, then the limit is
+	// removed or lowered: nothing already buffered may be lost and the cap governs new writes
+	for _, after := range []int{0, bufCap4M + 4096, 100000} {
+		if !mine() {
+			continue
+		}
+		s := mk(nil)
+		ops := []string{"LS" + strconv.Itoa(8 * 1024 * 1024)}
+		for occ := 0; occ < 5*1024*1024; occ += 60002 {
+			ops = append(ops, "W60000")
+		}
+		ops = append(ops, "R70000", "R70000", "W60000", "LS"+strconv.Itoa(after), "W60000", "W1", "R70000", "W0")
+		for i := 0; i < 100; i++ {
+			ops = append(ops, "R70000")
+		}
+		hist("limit-removed-after-growth", s, ops)
+		rep.family("limit", 1)
+	}
 	// count limits with mixed sizes, changed at every point
 	if mine() {
 		alphaC := []string{"W0", "W9", "R70000", "LC1", "LC2", "LC3", "LC0"}
